@@ -131,9 +131,14 @@ fn parse_chunks(s: &str) -> Vec<Vec<u8>> {
 // runtime / sockets
 
 fn build_rt(drv: &str, nbufs: u16, buflen: usize) -> Runtime {
+    build_rt_cap(drv, nbufs, buflen, 256)
+}
+
+/// `capacity` = submission-queue entries of the ring (the completion queue has twice as many)
+fn build_rt_cap(drv: &str, nbufs: u16, buflen: usize, capacity: u32) -> Runtime {
     let mut pb = ProactorBuilder::new();
     pb.driver_type(if drv == "uring" { DriverType::IoUring } else { DriverType::Poll })
-        .capacity(256)
+        .capacity(capacity)
         .buffer_pool_size(NonZeroU16::new(nbufs).expect("pool size"))
         .buffer_pool_buffer_len(buflen);
     let rt = Runtime::builder().with_proactor(pb).build().expect("runtime");
@@ -1550,6 +1555,137 @@ async fn accept_case(line: &str, ex: Rc<RefCell<Exec>>) -> String {
     format!("ids={} closed={closed}", sorted.iter().map(|i| i.to_string()).collect::<Vec<_>>().join(","))
 }
 
+/// a std (blocking) client socket of the burst cases
+enum StdClient {
+    Tcp(std::net::TcpStream),
+    Unix(std::os::unix::net::UnixStream),
+}
+
+impl StdClient {
+    fn connect(l: &Listener) -> io::Result<Self> {
+        Ok(match l {
+            Listener::Tcp(_, a) => StdClient::Tcp(std::net::TcpStream::connect(a)?),
+            Listener::Unix(_, p) => StdClient::Unix(std::os::unix::net::UnixStream::connect(p)?),
+        })
+    }
+    fn write_all(&mut self, b: &[u8]) -> io::Result<()> {
+        use std::io::Write;
+        match self {
+            StdClient::Tcp(s) => s.write_all(b),
+            StdClient::Unix(s) => s.write_all(b),
+        }
+    }
+    fn read_exact(&mut self, b: &mut [u8]) -> io::Result<()> {
+        use std::io::Read;
+        match self {
+            StdClient::Tcp(s) => {
+                s.set_read_timeout(Some(Duration::from_secs(3)))?;
+                s.read_exact(b)
+            }
+            StdClient::Unix(s) => {
+                s.set_read_timeout(Some(Duration::from_secs(3)))?;
+                s.read_exact(b)
+            }
+        }
+    }
+}
+
+/// `accept <tp> <drv> burst <n> <ring capacity>`: the multishot accept is armed by a first connection,
+/// then `n` blocking connects are made on the runtime thread itself (nothing reaps completions
+/// meanwhile, so a small completion queue fills up and the kernel ends the multishot accept with a
+/// final, successful completion); every connection must come out of `incoming()` exactly once and be
+/// connected to its own client
+async fn accept_burst_case(line: &str, ex: Rc<RefCell<Exec>>) -> String {
+    let f: Vec<&str> = line.split_whitespace().collect();
+    let tp = f[1];
+    let n: usize = f[4].parse().unwrap();
+    let base = stable_fds();
+    let mut ids: Vec<u8> = vec![];
+    {
+        let l = listener(tp).await;
+        let mut conns: Vec<S> = vec![];
+        let mut clients: Vec<StdClient> = vec![];
+        macro_rules! run {
+            ($l:expr, $wrap:expr) => {{
+                let mut inc = $l.incoming();
+                // arm the accept
+                let mut first = StdClient::connect(&l).expect("connect");
+                first.write_all(&[0xff; 4]).expect("tag");
+                clients.push(first);
+                match compio_runtime::time::timeout(Duration::from_secs(3), inc.next()).await {
+                    Ok(Some(Ok(c))) => conns.push($wrap(c)),
+                    other => ex.borrow_mut().fail("C14:accept-dup-or-missing", format!("{line}: first accept: {:?}", other.map(|o| o.map(|r| r.map(|_| ()))))),
+                }
+                // the burst: no await in between
+                for i in 0..n {
+                    let mut c = StdClient::connect(&l).expect("connect");
+                    c.write_all(&[i as u8; 4]).expect("tag");
+                    clients.push(c);
+                }
+                for k in 0..n {
+                    match compio_runtime::time::timeout(Duration::from_secs(3), inc.next()).await {
+                        Ok(Some(Ok(c))) => conns.push($wrap(c)),
+                        other => {
+                            ex.borrow_mut().fail("C14:accept-dup-or-missing", format!("{line}: accept #{k} of the burst: {:?}", other.map(|o| o.map(|r| r.map(|_| ())))));
+                            break;
+                        }
+                    }
+                }
+            }};
+        }
+        match &l {
+            Listener::Tcp(tl, _) => run!(tl, S::Tcp),
+            Listener::Unix(ul, _) => run!(ul, S::Unix),
+        }
+        if let Listener::Unix(_, p) = &l {
+            let _ = std::fs::remove_file(p);
+        }
+        // every accepted connection carries the tag of exactly one client, and answers that client
+        for c in conns.iter().skip(1) {
+            let BufResult(r, tag) = on!(c, x => { let mut x = x; compio_io::AsyncReadExt::read_exact(&mut x, vec![0u8; 4]).await });
+            match r {
+                Ok(_) if tag.iter().all(|b| *b == tag[0]) => {
+                    ids.push(tag[0]);
+                    let r = on!(c, x => { let mut x = x; x.write(vec![tag[0] ^ 0x80; 4]).await.0 });
+                    if let Err(e) = r {
+                        ex.borrow_mut().fail("C14:stream-mismatch", format!("{line}: reply on accepted connection {}: {e}", tag[0]));
+                    }
+                }
+                other => ex.borrow_mut().fail("C14:accept-dup-or-missing", format!("{line}: accepted connection carries tag {tag:?} ({other:?})")),
+            }
+        }
+        let mut sorted = ids.clone();
+        sorted.sort();
+        if sorted.windows(2).all(|w| w[0] != w[1]) && sorted.len() == n {
+            for (i, c) in clients.iter_mut().skip(1).enumerate() {
+                let mut reply = [0u8; 4];
+                match c.read_exact(&mut reply) {
+                    Ok(()) if reply == [i as u8 ^ 0x80; 4] => {}
+                    other => ex.borrow_mut().fail("C14:stream-mismatch", format!("{line}: client {i} got {reply:?} ({other:?})")),
+                }
+            }
+        }
+        compio_runtime::time::sleep(Duration::from_millis(8)).await;
+        let now = open_fds();
+        let expect = base + 1 + conns.len() + clients.len();
+        if now > expect {
+            ex.borrow_mut().fail("C14:fd-leak", format!("{line}: {now} descriptors open while listener, {} yielded and {} client sockets are alive (expected {expect})", conns.len(), clients.len()));
+        }
+    }
+    compio_runtime::time::sleep(Duration::from_millis(5)).await;
+    let end = open_fds();
+    if end > base {
+        ex.borrow_mut().fail("C14:fd-leak", format!("{line}: {end} descriptors open after everything was dropped, {base} before"));
+    }
+    let mut sorted = ids.clone();
+    sorted.sort();
+    let want: Vec<u8> = (0..n as u8).collect();
+    if sorted != want {
+        ex.borrow_mut().fail("C14:accept-dup-or-missing", format!("{line}: accepted tags {ids:?}, expected each of 0..{n} once"));
+    }
+    format!("ids={} closed=0", sorted.iter().map(|i| i.to_string()).collect::<Vec<_>>().join(","))
+}
+
 // ---------------------------------------------------------------------------------------------
 // `RecvMsgMultiResult::new` and its accessors on crafted buffers (real parsing code)
 
@@ -1795,8 +1931,25 @@ fn exec(case: &Case) -> Exec {
         "accept" => {
             let (tp, drv) = (first[1], first[2]);
             ex.borrow_mut().tag(format!("accept-{tp}-{drv}-{}", first[3]));
-            let rt = build_rt(drv, 2, 64);
-            match catch(|| rt.block_on(accept_case(&case.lines[0], ex.clone()))) {
+            let burst = first[3] == "burst";
+            let base = stable_fds();
+            let rt = if burst { build_rt_cap(drv, 2, 64, first[5].parse().unwrap()) } else { build_rt(drv, 2, 64) };
+            let r = catch(|| {
+                if burst {
+                    rt.block_on(accept_burst_case(&case.lines[0], ex.clone()))
+                } else {
+                    rt.block_on(accept_case(&case.lines[0], ex.clone()))
+                }
+            });
+            if r.is_err() {
+                // a panic inside the accept stream: nothing it accepted may stay open
+                drop(rt);
+                let end = stable_fds();
+                if end > base {
+                    ex.borrow_mut().fail("C14:fd-leak", format!("{}: {end} descriptors open after the panic and the runtime's drop, {base} before", case.lines[0]));
+                }
+            }
+            match r {
                 Ok(o) => vec![o],
                 Err(p) => {
                     ex.borrow_mut().fail("C14:panic", format!("panic: {p}"));
@@ -2096,6 +2249,12 @@ fn gen_conc(rng: &mut Rng, idx: usize, tp: &str, drv: &str, big: bool) -> Case {
 }
 
 fn gen_accept(rng: &mut Rng, idx: usize, tp: &str, drv: &str) -> Case {
+    if idx % 4 == 1 {
+        // bursts against a small ring (completion queue = 2 x capacity entries)
+        let cap = *rng.pick(&[1u32, 2, 4]);
+        let n = rng.range(8, 32);
+        return Case { name: format!("accept-{tp}-{drv}-{idx}"), lines: vec![format!("accept {tp} {drv} burst {n} {cap}")] };
+    }
     let mode = *rng.pick(&["single", "incoming", "incoming"]);
     let k = rng.range(1, 6);
     let extra = rng.below(3);
